@@ -1,15 +1,23 @@
 (* C14: the two checksums of ipld/ipldbindcode/methods.go, executable.
    checksumCrc64 = hash/crc64.Checksum(buf, MakeTable(crc64.ISO)); checksumFnv = hash/fnv.New64a.
    Both are differential-tested against the Go library on every run (hash cases of the case file). *)
-From Coq Require Import NArith List Bool.
+From Coq Require Import NArith List Bool String.
 Import ListNotations.
+Require Import YF.Generated.ConstsC14.   (* re-read from ipld/ipldbindcode/methods.go on every check *)
 Local Open Scope N_scope.
 
 Definition M64 : N := 18446744073709551616.            (* 2^64 *)
 Definition MASK64 : N := 18446744073709551615.
 
-(* hash/crc64: const ISO = 0xD800000000000000 *)
-Definition crc_poly : N := 15564440312192434176.
+(* the polynomial the repository hands to crc64.MakeTable (generated fact); hash/crc64: const ISO = 0xD800000000000000 *)
+Definition crc_poly : N := go_crc64_poly.
+Example crc_poly_is_ISO : crc_poly = 15564440312192434176.
+Proof. reflexivity. Qed.
+(* the legacy checksum is hash/fnv New64a (FNV-1a, 64 bit), and VerifyHash tries CRC64 first, then FNV *)
+Example go_fnv_is_1a_64 : go_fnv_variant = "New64a"%string.
+Proof. reflexivity. Qed.
+Example go_verify_order_is_crc_then_fnv : go_verify_order = ["checksumCrc64"%string; "checksumFnv"%string].
+Proof. reflexivity. Qed.
 
 (* makeTable: for i in 0..255 { crc := i; 8 times: if crc&1 == 1 { crc = crc>>1 ^ poly } else { crc >>= 1 } } *)
 Fixpoint tab_entry (j : nat) (crc : N) : N :=
